@@ -82,6 +82,11 @@ func (c20) Gen(seed uint64, tier string) Case {
 	nsnap := 0
 	var snapLive []map[string]int
 	n := 7 + r.Intn(8)
+	maxCorr := 4
+	if tier == "thorough" {
+		n = 7 + r.Intn(20)
+		maxCorr = 8
+	}
 	ncorr := 0
 	pickLive := func() (string, int, bool) {
 		ks := sortedKeys(live)
@@ -157,7 +162,7 @@ func (c20) Gen(seed uint64, tier string) Case {
 				inited = true
 			}
 		case 6:
-			if !inited || ncorr >= 4 {
+			if !inited || ncorr >= maxCorr {
 				continue
 			}
 			ncorr++
